@@ -341,8 +341,10 @@ impl<C: CellType> OptRebuild<'_, C> {
     /// the necessary pending operations.
     fn perform_all(&mut self, shift: isize, calcs: &[(isize, Expr<C>)]) {
         let mut exprs = SmallVec::<_, 1>::with_capacity(calcs.len());
-        for (var, expr) in calcs {
+        for (_, expr) in calcs {
             // Special check to avoid the worst type of exponential explosion.
+            // This may emit pending operations, so it must happen before any of
+            // the expressions, which are performed at the same time, is evaluated.
             for vars in expr.grouped_vars() {
                 if vars.len() >= 2 {
                     let mut last = isize::MIN;
@@ -356,6 +358,8 @@ impl<C: CellType> OptRebuild<'_, C> {
                     }
                 }
             }
+        }
+        for (var, expr) in calcs {
             let pending = self.eval_pending(shift, expr);
             exprs.push((shift + *var, pending));
         }
